@@ -392,7 +392,11 @@ def support(ctx: Ctx, rule_fns, functions: set) -> int:
     kept = 0
     for fn in rule_fns:
         n_f, n_s = len(ctx.findings), len(ctx.sites.get(rid, []))
-        fn(ctx)
+        ctx.only_functions = set(functions)      # sections about other functions are not evaluated at all
+        try:
+            fn(ctx)
+        finally:
+            ctx.only_functions = None
         new_f = ctx.findings[n_f:]
         del ctx.findings[n_f:]
         ctx.findings.extend(f for f in new_f if f.where.split("::")[-1] in functions)
